@@ -98,6 +98,11 @@ theorem agree_step (cfg : Cfg) (hg : cfg.guard = true) (pm : Perm) (hpm : pm.err
   case stopFinish =>
     refine ⟨?_, ?_, ?_, ?_, ?_, ?_, ?_⟩ <;>
       simp [Act.apply, Core.stopFinish, Core.writeImage] <;> split <;> simp
+  case stopFinishC fx d =>
+    refine ⟨?_, ?_, ?_, ?_, ?_, ?_, ?_⟩ <;>
+      simp [Act.apply, Core.stopFinish, Core.writeImage] <;> split <;> simp
+  case restartMidC fx =>
+    refine ⟨?_, ?_, ?_, ?_, ?_, ?_, ?_⟩ <;> simp [Act.apply, Core.restartMid]
   case restartBegin =>
     have hs : a.core.started = true := hst hen.1
     refine ⟨?_, ?_, ?_, ?_, ?_, ?_, ?_⟩ <;> simp_all [Act.apply, Core.restartBegin]
@@ -158,6 +163,11 @@ theorem agreeWeak_step (cfg : Cfg) (pm : Perm) (a : A) (act : Act) (h : AgreeWea
   case stopFinish =>
     refine ⟨?_, ?_, ?_, ?_, ?_⟩ <;>
       simp [Act.apply, Core.stopFinish, Core.writeImage] <;> split <;> simp
+  case stopFinishC fx d =>
+    refine ⟨?_, ?_, ?_, ?_, ?_⟩ <;>
+      simp [Act.apply, Core.stopFinish, Core.writeImage] <;> split <;> simp
+  case restartMidC fx =>
+    refine ⟨?_, ?_, ?_, ?_, ?_⟩ <;> simp [Act.apply, Core.restartMid]
   case restartBegin =>
     refine ⟨?_, ?_, ?_, ?_, ?_⟩ <;> simp_all [Act.apply, Core.restartBegin]
   case restartMid =>
@@ -307,6 +317,13 @@ theorem idsAfter_step (cfg : Cfg) (a0 a : A) (act : Act) (h : IdsAfter a0 a) :
     · simp only [Act.apply, Core.stopFinish, Core.writeImage]; split <;> exact h1
     · simp only [Act.apply, Core.stopFinish, Core.writeImage] at hr; split at hr <;> cases hr
   case restartMid => exact ⟨h1, Or.inr (fun r hr => by simp [Act.apply, Core.restartMid] at hr)⟩
+  case stopFinishC fx d =>
+    refine ⟨?_, Or.inr (fun r hr => ?_)⟩
+    · simp only [Act.apply, Core.stopFinish, Core.writeImage]; split <;> simpa using h1
+    · simp only [Act.apply, Core.stopFinish, Core.writeImage] at hr; split at hr <;> cases hr
+  case restartMidC fx =>
+    exact ⟨by simpa [Act.apply, Core.restartMid] using h1,
+      Or.inr (fun r hr => by simp [Act.apply, Core.restartMid] at hr)⟩
   case write => refine ⟨?_, ?_⟩ <;> simp only [Act.apply, Core.writeImage] <;> split <;> assumption
   case ev e =>
     cases e <;> refine ⟨?_, ?_⟩ <;> simp only [Act.apply, Core.event] <;>
